@@ -51,6 +51,18 @@ package registration
 //@   ensures[C13,* failed] err != nil ==> unchangedNode(k)
 //@   ensures[C13,* others] forall id String :: id != k ==> unchangedNode(id)
 //@   ensures[* skipped] opts(opt).WithSkipStorage ==> unchangedNode(k)
+// C04 (and the node clause of C09): every issued certificate is a non-CA client-authentication leaf for the
+// request's certificate key, named by its key id, with exactly the validity window of the issuing root
+// certificate, signed by that root's key; one chain per stored root, current first
+//@   call x509.CreateCertificate assert[C04,C09 leaf] arg1 != nil && !arg1.IsCA && len(arg1.ExtKeyUsage) == 1 && arg1.ExtKeyUsage[0] == 2
+//@   |   && arg1.Subject.CommonName == k && bytes(arg1.SubjectKeyId) == bytes(reqInfo.CertificatePublicKeyPkix)
+//@   |   && arg2 != nil && arg1.NotBefore == arg2.NotBefore && arg1.NotAfter == arg2.NotAfter
+//@   |   && keyOf(arg3) == edpk(bytes(reqInfo.CertificatePublicKeyPkix))
+//@   |   && arg2 == certOf(rootCert.CertificateDer) && keyOf(arg4) == unpkcs8(bytes(rootCert.PrivateKeyPkcs8))
+// (the record returned after a duplicate-record refusal is an earlier record and is not described here)
+//@   ensures[C04 chains] err == nil && (opts(opt).WithSkipStorage || !unchangedNode(k)) ==> len(ret.CertificateBundles) == 2 && StHas("roots", "roots")
+//@   |   && bytes(ret.CertificateBundles[0].CaCertificateDer) == bytes(StGet("roots", "roots").Current.CertificateDer)
+//@   |   && bytes(ret.CertificateBundles[1].CaCertificateDer) == bytes(StGet("roots", "roots").Next.CertificateDer)
 //@   modifies StNodeInfo
 //@   loop 0 unroll 2
 
@@ -74,6 +86,8 @@ package registration
 //@   |   && wOkS(opts(opt).WithStorageWrapper, blobCt(old(StGet("token", id)).CreationTimeMarshaled), id)
 //@   |   && unMts(wPtS(opts(opt).WithStorageWrapper, blobCt(old(StGet("token", id)).CreationTimeMarshaled), id))
 //@   |        + opts(opt).WithMaximumServerLedActivationTokenLifetime >= now(0)
+//@   ensures[C04,* record] err == nil && !opts(opt).WithSkipStorage ==> StHas("nodeinfo", k)
+//@   |   && (storedNode(StGet("nodeinfo", k), ret) || loadedFrom(ret, StGet("nodeinfo", k)))
 //@   ensures[C06 newkeyonly] reliable() && err == nil ==> !old(StHas("nodeinfo", k))
 //@   ensures[C06,C13,C01,* nocreate] err != nil ==> forall j String :: unchangedNode(j)
 //@   ensures[C13,* consumed] reqInfo != nil && tokenNonce != nil && !unchangedNode(k) ==> !StHas("token", id)
@@ -150,4 +164,18 @@ package registration
 //@   ensures[C13,* othertokens] forall j String :: req == nil || j != tid ==> unchangedToken(j)
 //@   ensures[C13,* consumed] req != nil && !wrapflow && !unchangedNode(k) ==> !StHas("token", tid)
 //@   ensures[C13,* tokenflowonly] req == nil || wrapflow || len(nonce) == 32 ==> forall j String :: unchangedToken(j)
+// C04: what is sealed, for whom, and by which record. The response is sealed with the node record as key source;
+// that record carries the encryption key of the signed request, the credentials inside echo the request's nonce,
+// carry the record's certificate chains and the public half of the record's server key; the record is the stored one;
+// the signature is made with the key of the stored current root.
+//@   call nodeenrollment.EncryptMessage assert[C04 sealedfor] nodeInfo != nil && payload(arg2) == nodeInfo && payload(arg1) == nodeCreds
+//@   |   && bytes(nodeInfo.EncryptionPublicKeyBytes) == encpub && bytes(nodeInfo.CertificatePublicKeyPkix) == certpub
+//@   |   && bytes(nodeCreds.RegistrationNonce) == nonce && nodeCreds.CertificateBundles == nodeInfo.CertificateBundles
+//@   |   && bytes(nodeCreds.ServerEncryptionPublicKeyBytes) == xpub(bytes(nodeInfo.ServerEncryptionPrivateKeyBytes))
+//@   call nodeenrollment.EncryptMessage assert[C04 storedrecord] reliable() && !opts(opt).WithSkipStorage ==> StHas("nodeinfo", k)
+//@   |   && (storedNode(StGet("nodeinfo", k), nodeInfo) || loadedFrom(nodeInfo, StGet("nodeinfo", k)))
+//@   call iface:crypto.Signer.Sign assert[C04 signedbycurrent] StHas("roots", "roots") && bytes(arg2) == bytes(encryptedBytes)
+//@   |   && (StGet("roots", "roots").WrappingKeyId == "" ==> keyOf(arg0) == unpkcs8(bytes(StGet("roots", "roots").Current.PrivateKeyPkcs8)))
+//@   ensures[C04 response] err == nil && ret.EncryptedNodeCredentials != nil ==> ret.EncryptedNodeCredentialsSignature != nil
+//@   |   && len(ret.ServerEncryptionPublicKeyBytes) == 32
 //@   modifies StNodeInfo, StToken, nosharedappend
